@@ -72,6 +72,12 @@ CHECKS["C01"] = dict(level="exploration",
    technique="differential runtime monitor: real gateway vs reference executor over semantic subgraphs, request validation and ownership monitor at the RoundTripper boundary",
    design_ref="DESIGN.md §6 C01, Appendix A")
 
+CHECKS["C08"] = dict(level="exploration",
+   text="Exploration with an exhaustive core. Every dependency DAG on <=4 fetches (thorough <=5) x every fetch-id assignment x every raw order goes through the real post-processor under all 10 scheduling option sets (waves / scheduler / serial, +-multi-fetch, +-de-duplication) and the resulting fetch tree is checked against the generated ground truth (every planned fetch exactly once or accounted for by a documented merge; every dependency completes before its dependant under Sequence/Parallel semantics). The same plans, plus seeded plans up to 14 fetches with nested response paths, entity / batch / multi fetches, duplicates and failing fetches, are executed by the real Resolver/Loader with gated fake data sources under controller-chosen completion orders (every order for <=4 fetches, every permutation of each parallel group up to 4 members, seeded orders, bursts, free runs): request content must carry the unique tokens its dependencies delivered, no request arrives before its dependencies were merged (logical clock), responses are identical across completion orders; race detector on.",
+   note="Trusted: the Sequence/Parallel reading of FetchTreeNode and MergedFetchIDs as the account of a merged request, LoaderHooks.OnFinished firing inside the merge phase, the fake data sources and controller, the plan generator's ground truth, the Go race detector. Engine-level layer 3 (federated operations under gated transport) is covered by C07/C09's runs, not here.",
+   technique="structural fetch-tree monitor (exhaustive small DAGs) + gated-datasource schedule exploration under -race with content/arrival-order/response-equality oracles",
+   design_ref="DESIGN.md §6 C08, Appendix F7")
+
 NOT_YET = {
 }
 
